@@ -13,8 +13,9 @@ HEADER_LINES = 1
 CASE_TIMEOUT = 5.0
 SHRINK_BUDGET = 160
 RULE = ("AVL: every insertion order of 1..7 distinct keys (each followed by a removal order), every removal order "
-        "from every AVL tree of <= 6 nodes (quick; <= 7 nodes thorough, sampled per tree in quick), sampled orders of "
-        "8 keys, seeded random long mixed histories with duplicates, extreme int64 keys, with node pool (capacity 2, "
+        "from every AVL tree of <= 6 nodes (quick; <= 7 nodes thorough, sampled per tree in quick; 8 nodes sampled), EVERY AVL shape of "
+        "<= 10 nodes (quick; <= 12 thorough) x every key removed first (rest in random order) and x every gap "
+        "receiving a new key, sampled orders of 8 and 9 keys, seeded random long mixed histories with duplicates, extreme int64 keys, with node pool (capacity 2, "
         "forced to grow) and without; hash table: random histories over table sizes 8/11/16/default 10007 with an "
         "all-collide hash, a 4-bucket hash, identity, multiplicative and the library's default string hash; trie: random "
         "histories over byte strings drawn from 1..255 (shared prefixes, empty key, bytes >= 0x80) and a full-alphabet "
@@ -34,9 +35,26 @@ ASSUMPTIONS = [
     "remove is given a node obtained from find on the same container (the documented usage)",
 ]
 EVIDENCE_NOTES = [
-    "proved (unbounded, Coq): see coverage.theorems; anything named *_partial states its gap in Properties_C09.v",
+    "PROVED in Coq, unbounded, nothing left _partial (coverage.theorems): avl_inv_insert, avl_inv_remove, avl_inv_history "
+    "(search-tree order + recorded balance = height(right) - height(left) + |balance| <= 1 at every node, preserved by "
+    "insert with all four rotation cases and by remove with swap-to-leaf, retracing, rebalance and early stop); "
+    "avl_refines_map / avl_duplicate_rejected / avl_insert_exact / avl_remove_exact (every history answered like the "
+    "reference map, duplicate rejected with the tree structurally unchanged, removal deletes exactly that key); "
+    "avl_check_sound; ht_refines_map for EVERY hash function and table size, ht_duplicate_rejected; trie_refines_map over "
+    "byte strings 1..255 incl. the empty key, prefixes, bytes >= 0x80 (repaired index), trie_remove_present_true, "
+    "trie_high_bytes (repaired index in range, never slot 0), trie_unrepaired_index_out_of_bounds (the defect, as a theorem "
+    "about the unchanged index computation)",
+    "ONLY covered by the differential run + monitor + driver walk (not by theorems): that the Gallina models equal the C "
+    "code (the tie itself: every result and the pre-order key=value:balance dump of the real tree compared after every "
+    "operation); parent-link consistency of the AVL nodes; prev/next splicing and bucket membership of hash chains; the "
+    "memory-pool variant (node recycling, pool growth); release of user keys/values through the free callbacks (ASan + "
+    "live-block count at destroy); the int8_t width of the balance field; the library's default string hash",
+    "DEFECT found on the unchanged tree by this check (VIOLATION with replay, see corpus/C09/trie-high-byte-*.case): "
+    "trie.c indexes children[(int)(*p)] with a signed char, bytes >= 0x80 give a negative index (UBSan: index -1 out of "
+    "bounds for type 'muggle_trie_node *[256]'; OOB read in find/remove, OOB write in insert); repaired by "
+    "fixes/C09-trie-unsigned-index.patch, the model and trie_refines_map describe the repaired code",
     "return value of muggle_trie_remove (true iff the node exists, even with no data) is compared with the model but "
-    "not constrained by the monitor for absent keys: the header leaves it unspecified",
+    "not constrained by the monitor for absent keys: the header leaves it unspecified (theorem side: [obs])",
     "observation (not a violation): muggle_trie_remove calls func_free(pool, NULL) for a key that is absent but whose "
     "node exists (prefix of another key / already removed); muggle_trie_insert overwrites without releasing the old value",
 ]
@@ -93,6 +111,50 @@ def _shape_reps(n):
             t = _ins(t, x)
         reps.setdefault(_sig(t), p)
     return [reps[s] for s in sorted(reps)]
+
+
+_shape_memo = {}
+
+
+def _avl_shapes(n):
+    """every AVL shape with n nodes as (left, right) nested tuples, with its height"""
+    if n in _shape_memo:
+        return _shape_memo[n]
+    if n == 0:
+        res = [(None, 0)]
+    else:
+        res = []
+        for i in range(n):
+            for l, hl in _avl_shapes(i):
+                for r, hr in _avl_shapes(n - 1 - i):
+                    if abs(hl - hr) <= 1:
+                        res.append(((l, r), 1 + max(hl, hr)))
+    _shape_memo[n] = res
+    return res
+
+
+def _bfs_keys(shape, scale=10):
+    """keys scale*1..scale*n assigned in-order; returned in level order (inserting them in
+    this order builds the shape without any rotation)"""
+    cnt = [0]
+
+    def label(t):
+        if t is None:
+            return None
+        l = label(t[0])
+        cnt[0] += 1
+        k = cnt[0] * scale
+        return (l, k, label(t[1]))
+    lt = label(shape)
+    out, level = [], [lt]
+    while level:
+        nxt = []
+        for t in level:
+            if t is not None:
+                out.append(t[1])
+                nxt += [t[0], t[2]]
+        level = nxt
+    return out
 
 
 # --------------------------------------------------------------------------
@@ -195,8 +257,19 @@ ASCII = [0x61, 0x62, 0x63, 0x2f, 0x41]
 EDGE = [1, 0x7e, 0x7f, 0x80, 0x81, 0xc3, 0xa9, 0xfe, 0xff]
 
 
+def _corpus_files():
+    import glob
+    import os
+    out = []
+    for f in sorted(glob.glob(os.path.join(V.VERIF, "corpus", "C09", "*.case"))):
+        c = V.Case.load(f)
+        c.name = "corpusfile-" + c.name
+        out.append(c)
+    return out
+
+
 def corpus_cases(ctx):
-    return [
+    return _corpus_files() + [
         _avl_case("corpus-avl-rl-rotation", 0, ["ins 10 1", "ins 30 2", "ins 20 3", "ins 40 4", "ins 25 5", "ins 22 6",
                                                  "rem 10", "rem 40", "find 22", "ins 22 9"]),
         _avl_case("corpus-avl-remove-chain", 2, _perm_ops((4, 2, 6, 1, 3, 5, 7), (4, 3, 2, 1, 5, 6, 7))),
@@ -232,6 +305,27 @@ def generate(rng, tier):
             for j, rem in enumerate(perms):
                 cap = (0, 2)[(j + si) % 2]
                 cases.append(_avl_case("avl-ro-n%d-s%d-%d-c%d" % (n, si, j, cap), cap, _perm_ops(rep, rem, finds=False)))
+    # --- AVL: EVERY AVL tree of n nodes (built by level-order insertion) x every key removed first
+    #     (then the rest in random order), and x every gap receiving a new key
+    for n in range(1, (11 if quick else 13)):
+        for si, (shape, _) in enumerate(_avl_shapes(n)):
+            keys = _bfs_keys(shape)
+            build = ["ins %d %d" % (k, k + 1) for k in keys]
+            for j, k in enumerate(sorted(keys)):
+                rest = rng.shuffle([x for x in keys if x != k])
+                cap = (0, 2)[(j + si) % 2]
+                cases.append(_avl_case("avl-sh-n%d-s%d-rem%d" % (n, si, k), cap,
+                                       build + ["rem %d" % k] + ["rem %d" % x for x in rest]))
+            for g in range(n + 1):
+                cases.append(_avl_case("avl-sh-n%d-s%d-ins%d" % (n, si, g), (0, 2)[(g + si) % 2],
+                                       build + ["ins %d 7" % (10 * g + 5), "find %d" % (10 * g + 5), "ins %d 8" % (10 * g + 5)]))
+    # --- AVL: every AVL tree of 8 nodes x sampled complete removal orders
+    for si, (shape, _) in enumerate(_avl_shapes(8)):
+        keys = _bfs_keys(shape)
+        build = ["ins %d %d" % (k, k + 1) for k in keys]
+        for j in range(25 if quick else 1200):
+            cases.append(_avl_case("avl-ro-n8-s%d-%d" % (si, j), (0, 2)[(j + si) % 2],
+                                   build + ["rem %d" % x for x in rng.shuffle(keys)]))
     # --- AVL: sampled orders of 8 and 9 keys, insert / remove all / re-insert
     for i in range(300 if quick else 6000):
         n = 8 if i % 2 == 0 else 9
@@ -239,9 +333,9 @@ def generate(rng, tier):
         ops = _perm_ops(p, rng.shuffle(p), finds=False) + _perm_ops(rng.shuffle(p)[:4], [], finds=False)
         cases.append(_avl_case("avl-io-n%d-r%d" % (n, i), (0, 3)[i % 2], ops))
     # --- AVL: random long mixed histories
-    for i in range(160 if quick else 2500):
+    for i in range(160 if quick else 1000):
         R = rng.choice([3, 5, 8, 12, 16, 24, 40, 100])
-        nops = rng.range(20, 260 if quick else 900)
+        nops = rng.range(20, 260 if quick else 600)
         cases.append(_rand_avl(rng, "avl-rnd-%d" % i, R, nops, rng.choice([0, 0, 1, 2, 8]), extreme=(i % 10 == 0)))
     # ascending / descending runs, removal from both ends and from the middle
     for i, N in enumerate((33, 64, 100) if quick else (33, 64, 100, 257, 400)):
